@@ -5,6 +5,32 @@ import os
 import sys
 
 
+def _selftest_in_child(selftest, prop, tier, seed):
+    """translator validation runs in a forked child: the parent (from which every obligation is forked) never
+    executes library code, so no state can leak from the self-test into an obligation"""
+    import multiprocessing as mp
+    ctx = mp.get_context("fork")
+    rx, tx = ctx.Pipe(duplex=False)
+
+    def child():
+        try:
+            r = selftest.run(prop, tier, seed, quick=(tier == "quick"))
+        except BaseException as e:  # noqa
+            r = {"ok": False, "detail": ["self-test crashed: %r" % (e,)]}
+        tx.send(r)
+        tx.close()
+        os._exit(0)
+    p = ctx.Process(target=child)
+    p.start()
+    tx.close()
+    try:
+        r = rx.recv() if rx.poll(600) else {"ok": False, "detail": ["self-test timed out"]}
+    except EOFError:
+        r = {"ok": False, "detail": ["self-test died"]}
+    p.join(5)
+    return r
+
+
 def main():
     ap = argparse.ArgumentParser()
     ap.add_argument("prop")
@@ -22,7 +48,7 @@ def main():
         import re
         obs = [o for o in obs if re.search(a.only, o.name)]
     info = dict(mod.INFO)
-    st = selftest.run(a.prop, a.tier, seed, quick=(a.tier == "quick"))
+    st = _selftest_in_child(selftest, a.prop, a.tier, seed)
     info.setdefault("extra_coverage", {})["translator_validation"] = st
     if not st["ok"]:
         print("HARNESS-ERROR property=%s translator validation failed: %s" % (a.prop, st["detail"]))
